@@ -159,7 +159,12 @@ def run(ctx, chk):
                                       if n in prog.funcs and prog.funcs[n].internal and prog.funcs[n].unit == prog.fn("cbor_copy").unit)
     # ---- aliasing / freshness
     nins = 0
+    # (a helper that is inlined into cbor_copy's paths is judged there, where it is known which of its arguments come from the source:
+    # its own first parameter may just as well be the fresh result it is asked to fill)
+    inlined_ = O.static_callees(prog, eff, "cbor_copy")
     for name in SUBJECTS:
+        if name != "cbor_copy" and name in inlined_:
+            continue
         f = prog.fn(name)
         where = "%s:%d" % (f.file, f.line)
         for k, pa in enumerate(cache.get(name, inline_static=True)):
